@@ -1,3 +1,4 @@
 import GraphSlam.Props.C15.Frame
 import GraphSlam.Props.Tie.GraphPy
+import GraphSlam.Props.C15.HeapExamples
 /-! C15 — umbrella. -/
